@@ -3,7 +3,7 @@ package extract
 import (
 	"encoding/json"
 	"fmt"
-	"path"
+	"os"
 	"sort"
 	"strings"
 	"testing"
@@ -55,6 +55,12 @@ func (C02) Gen(rt *rapid.T, tier string) any {
 	sc := &C02Scenario{RunSpec: RunSpec{Mode: mode, OS: osName, Running: running, CancelAt: -1}}
 	p := newPlacer(t)
 	kind := oneOf(rt, []string{"plain", "plain", "plain", "plain", "shared", "shared", "include", "inner", "foreign", "sibling"}, "kind")
+	if chance(rt, 2, "zipbomb") {
+		kind = "zipbomb"
+	}
+	if os.Getenv("VERIF_X_ONLY") != "" {
+		kind = "plain"
+	}
 	if mode == "real" && rapid.Bool().Draw(rt, "containerd") {
 		kind = "containerd"
 	}
@@ -123,6 +129,25 @@ func (C02) Gen(rt *rapid.T, tier string) any {
 				avoid[t.Fix[fi].Ext] = true
 			}
 		}
+	case "zipbomb":
+		// a small jar whose many sibling inner "archives" inflate to a multiple of the extractor's
+		// opened-bytes budget and are not archives at all (each fails to extract)
+		if has(enabled, "java/archive") {
+			n := 44 + pick(rt, 13, "zb.n")
+			sz := 2 << 20
+			ents := []ZipEnt{{Name: "META-INF/MANIFEST.MF", Src: Src{Text: "Manifest-Version: 1.0\nImplementation-Title: bomb\nImplementation-Version: 1.0\n"}}}
+			for k := 0; k < n; k++ {
+				ents = append(ents, ZipEnt{Name: fmt.Sprintf("lib/dep%d.%s", k, oneOf(rt, []string{"jar", "war"}, fmt.Sprintf("zb.ext%d", k))), Src: Src{Pad: sz}, Deflate: true})
+			}
+			i := p.next
+			p.next++
+			d := inst(drawDir(rt, "zb.dir", true), "", i, "")
+			if p.add(FileSpec{Path: fmt.Sprintf("%s/lib/bundle%d.jar", d, i), Src: Src{Zip: ents}}) {
+				victim = len(p.files) - 1
+				p.dirs[d] = true
+				avoid["java/archive"] = true
+			}
+		}
 	case "foreign":
 		// content of extractor A at a path of extractor B
 		a := cov[pick(rt, len(cov), "fa")]
@@ -153,6 +178,9 @@ func (C02) Gen(rt *rapid.T, tier string) any {
 	}
 	if victim < 0 { // plain (also the fallback), and "sibling": the victim is a companion file
 		e := cov[pick(rt, len(cov), "v.ext")]
+		if only := os.Getenv("VERIF_X_ONLY"); has(cov, only) {
+			e = only // targeted run: every plain victim belongs to this extractor
+		}
 		if kind == "sibling" {
 			e = oneOf(rt, []string{"go/gomod", "chrome/extensions"}, "v.sib")
 			if !has(cov, e) {
@@ -163,7 +191,9 @@ func (C02) Gen(rt *rapid.T, tier string) any {
 		if fi < 0 {
 			fi = pickFixture(rt, t, e, maxFixtureBytes, false, "v2")
 		}
+		p.alone = kind != "sibling" && chance(rt, 40, "v.alone") // e.g. an old go.mod without its go.sum
 		victim = p.place(fi, homeTmpl(rt, t, fi, "v.tm"), drawDir(rt, "v.dir", true))
+		p.alone = false
 		if kind == "sibling" && victim >= 0 && p.files[victim].Group > 0 {
 			var sib []int
 			for i := range p.files {
@@ -200,7 +230,7 @@ func (C02) Gen(rt *rapid.T, tier string) any {
 	sc.Victim = victim
 	v := &sc.Files[victim]
 	vb, _ := v.Src.Bytes(false)
-	if !v.Src.HasOps() && (kind != "include" || rapid.Bool().Draw(rt, "incops")) && kind != "foreign" {
+	if !v.Src.HasOps() && (kind != "include" || rapid.Bool().Draw(rt, "incops")) && kind != "foreign" && (kind != "zipbomb" || rapid.Bool().Draw(rt, "zbops")) {
 		v.Src.Ops = genOps(rt, len(vb), "op")
 	}
 	if kind == "foreign" && rapid.Bool().Draw(rt, "fops") {
@@ -464,20 +494,32 @@ func (c C02) evaluate(sc *C02Scenario) *sim.Outcome {
 		}
 	}
 
-	// (2) memory budget per Extract (inputs <= 256 KiB), confirmed by a second run
-	if cor.TreeBytes <= 1<<20 {
-		for _, er := range cor.Extracts {
-			if er.AllocMB > 1024 {
-				resetDir(sb.Root)
-				again, _ := runScan(&sc.RunSpec, true, sb, nil)
-				out.Executions++
-				for _, er2 := range again.Extracts {
-					if er2.Ext == er.Ext && er2.Path == er.Path && er2.AllocMB > 1024 {
-						out.Violate("mem-budget", "mem-budget:"+er.Ext, "Extract(%s, %s) grew the process memory by %d MiB (again: %d MiB) for a tree of %d bytes", er.Ext, er.Path, er.AllocMB, er2.AllocMB, cor.TreeBytes)
-					}
-				}
+	// (2) memory budgets per Extract, confirmed by a second run of the same scan
+	for _, r := range []struct {
+		o       *Obs
+		spec    *RunSpec
+		corrupt bool
+		which   string
+	}{{base, &baseSpec, false, "healthy"}, {cor, &sc.RunSpec, true, "corrupted"}} {
+		for _, er := range r.o.Extracts {
+			kind, lim, got := memOver(er, r.o.TreeBytes)
+			if kind == "" {
+				continue
+			}
+			resetDir(sb.Root)
+			resetDir(sb.Tmp)
+			again, err := runScan(r.spec, r.corrupt, sb, nil)
+			out.Executions++
+			if err != nil || again.Hang {
 				break
 			}
+			for _, er2 := range again.Extracts {
+				if k2, _, got2 := memOver(er2, again.TreeBytes); er2.Ext == er.Ext && er2.Path == er.Path && k2 == kind {
+					out.Violate("mem-budget", "mem-budget:"+kind+":"+er.Ext, "%s run: Extract(%s, %s): %s = %d MiB (again: %d MiB), budget %d MiB, for a tree of %d bytes",
+						r.which, er.Ext, er.Path, kind, got, got2, lim, r.o.TreeBytes)
+				}
+			}
+			break
 		}
 	}
 
@@ -606,8 +648,6 @@ func (c C02) evaluate(sc *C02Scenario) *sim.Outcome {
 	return out
 }
 
-var _ = path.Base
-
 func cloneC02(sc *C02Scenario) *C02Scenario {
 	c := *sc
 	c.Files = nil
@@ -707,4 +747,17 @@ func minimiseC02(sc *C02Scenario, still func(*C02Scenario) bool) *C02Scenario {
 		try(y)
 	}
 	return best
+}
+
+// memOver applies the per-Extract memory budgets: growth of the memory obtained from the OS
+// (any extractor, trees <= 1 MiB), and - for java/archive, which has an explicit budget for
+// inflating inner archives (MaxOpenedBytes, set to archiveMaxOpened here) - the bytes allocated.
+func memOver(er *ExtractRec, treeBytes int) (kind string, limitMB, gotMB int64) {
+	if treeBytes <= 1<<20 && er.AllocMB > 1024 {
+		return "process-growth", 1024, er.AllocMB
+	}
+	if lim := int64(64 + 8*(archiveMaxOpened>>20) + 64*(treeBytes>>20)); er.Ext == "java/archive" && er.TotalMB > lim {
+		return "allocated", lim, er.TotalMB
+	}
+	return "", 0, 0
 }
